@@ -111,8 +111,10 @@ LParse == /\ up /\ lpc = "staged"
                   \/ (L("failed") /\ UNCHANGED <<stage, cursor>>)                        \* insert error at this step
           /\ Same(<<origin, final, liveDoc, aside, tmpfile, loaded, wlock, kind, fetched, runs, up>>) /\ UNCHANGED Ghosts /\ UNCHANGED RdVars
           /\ Emit(<<"parse">>)
+\* (the run may also fail here although the signature verifies: the staging store refuses the last record that fills it, the signer)
 LVerify == /\ up /\ lpc = "parsed"
-           /\ IF fetched.kind = "badsig" THEN L("failed") ELSE L("verified")
+           /\ \/ (fetched.kind # "badsig" /\ L("verified"))
+              \/ L("failed")
            /\ Same(<<origin, final, liveDoc, stage, aside, tmpfile, loaded, wlock, kind, cursor, fetched, runs, up>>) /\ UNCHANGED Ghosts /\ UNCHANGED RdVars
            /\ Emit(<<"verify">>)
 \* the swap happens under the entry write lock
